@@ -230,7 +230,7 @@ PROPS["C08"] = dict(
     note=E1_NOTE + " " + E2_NOTE + " Assumes that a (start, stop) slice selects the elements start..stop-1 in order (C05, not decided) and that flatten keeps C order (proved under C03).",
     technique=E1_TECH + " + structural fold-order rule over the reduction views (custom libTooling extractor)",
     e1=[dict(tu="c08_reduce.cpp"), dict(tu="c08b_fold.cpp"), dict(tu="c08c_reduce_views.cpp"), dict(tu="c08c_reduce_views_rt.cpp"), dict(tu="c02d_capacity2.cpp")],
-    e2=[dict(rule="R-FOLD"), dict(rule="R-AXISNORM"), dict(rule="R-UFWD.reduce"), dict(rule="R-PARAMUSE")],
+    e2=[dict(rule="R-FOLD"), dict(rule="R-AXISNORM"), dict(rule="R-UFWD.reduce"), dict(rule="R-PARAMUSE"), dict(rule="R-REDAXIS")],
     rule=E1_RULE + "; E2: one instance per sum/prod/cumsum/cumprod overload, per reduce_/accumulate_/outer_ overload, per parameter of a reduction-composing view",
     explanation="Which elements enter a fold is an index-level fact (the slices), decided for all values; the order and accumulator position are structural facts of the fold loop.",
     not_decided="several reduction axes at once, axis=None path beyond 'flatten the whole array', dtype/initial value arithmetic, mean/var/stddev/vector_norm/trace, the slicing view (C05)",
@@ -261,6 +261,7 @@ PROPS["C17"] = dict(
     claim="Partial, one clause only: (E1 c17_pool, index level, exhaustive over small parameters) the output shape of 2-d pooling is the standard formula - floor((H-k)/s)+1, in ceil mode the ceiling with a last window that would start beyond the input dropped (PyTorch's rule), batch and channel extents kept - for every H in 1..7, k in 1..min(H,3), s in 1..3, both modes, on either spatial axis; and the window of output position p is rows / columns [p*s, p*s+k) with the batch / channel position kept, inside the input in floor mode and starting inside it in ceil mode. (E1 c17b_conv_shape, view level, constant shapes; the run-time kind does not fold) the output shape of conv1d / conv2d is floor((L + 2p - d(k-1) - 1)/s) + 1 per spatial axis for a stride, a zero padding and a dilation given per axis (asymmetric ones included), (N, C_out, ...) in front. (E1 c17c_pool_elem, constant and run-time shapes, symbolic INTEGER values of either sign) every element of max_pool2d is the maximum of exactly its window (2x2 stride 2 on two channels, overlapping rows, a non-square kernel, ceil mode with clipped last windows). The ELEMENT laws of average pooling, convolution, normalisation, softmax, linear, bilinear, distances are NOT decided: at view level only the shapes fold, the element obligations of max_pool2d, conv1d and linear-with-bias stay residual (run-time slice lists / nested reductions), and the floating-point routines are out of reach.",
     note=E1_NOTE + " The functions depend on (extent, kernel, stride, mode) only; these are constants, so the float quotient is folded by the compiler. Decided after the repair `fix: pooling in ceil mode drops a last window that would start beyond the input` (F35).",
     technique=E1_TECH + " (exhaustive enumeration of pooling parameters)",
+    e2=[dict(rule="R-REDAXIS")],
     e1=[dict(tu="c17_pool.cpp"), dict(tu="c17b_conv_shape.cpp", flags=["-DC17B_PART=1"]), dict(tu="c17b_conv_shape.cpp", flags=["-DC17B_PART=2"]), dict(tu="c17c_pool_elem.cpp"), dict(tu="c17c_pool_elem.cpp", flags=["-DVERIF_RT_KIND"])],
     rule=E1_RULE,
     explanation="shape_pool2d / slice_pool2d are integer functions of four small parameters per axis; each (parameter combination, clause) is one obligation against the formula of the property statement.",
